@@ -568,9 +568,11 @@ class Program:
         """Resolve a call to repository functions (CHA) or to an external dotted name (memoised per call node)."""
         cache = self.__dict__.setdefault("_resolve_cache", {})
         key = (f.qualname, id(call))
-        if key not in cache:
-            cache[key] = self._resolve_call(f, call)
-        return cache[key]
+        hit = cache.get(key)
+        # the node is kept in the entry: it stays alive, so its id cannot be reused by a later temporary node (oracle expressions are parsed on the fly)
+        if hit is None or hit[0] is not call:
+            hit = cache[key] = (call, self._resolve_call(f, call))
+        return hit[1]
 
     def _resolve_call(self, f: FuncInfo, call: ast.Call) -> list["FuncInfo | str"]:
         fn = call.func
